@@ -38,6 +38,18 @@ CHECKS = {
              text="Enum table equals the metamodel's values with multiplicity (ground, from W_img); every direct use site has the Python type/hook shape required (instance, exhaustive); at open sites EVERY primitive is accepted unchanged and round-trips, closed enumerations accept each declared value as that member and reject every other value of the base type (generic lemmas, all callbacks).",
              note="Trusted: Coq kernel+VM; translators x_mm, x_pkg (hook bodies from the AST of _hooks.py, registration list from a recording converter); converter model LSP.Sem validated by correspondence, not verified. Axioms: none.",
              ref="6/C13"),
+ "C16": dict(cat="proof", tech="Coq theorems over an abstract emission pipeline (all id assignments, set orders, prior directory states) + kernel-evaluated classification of every set/uuid/listing site of the four plugins (x_emit) + byte-comparison history stream on the real plugins",
+             text="PARTIAL: emit_id_invariant / emit_perm_invariant / run_history_independent are proved for the abstract pipeline (unbounded); the instance obligations (every set/uuid/id/listdir site of the plugins is of a class covered by a theorem; every plugin cleans or fixes the files it owns) are computed on the translated site table. That each Python expression is an instance of its class is a syntactic analysis plus differential runs (hash seeds x run histories, byte-identical trees), not a proof.",
+             note="Trusted: Coq kernel+VM; x_emit.py (AST scan/classification); the LSP.Emit abstractions; CPython dict insertion order and sorted() being a function of the multiset. Real file-system atomicity not modelled. Axioms: none.",
+             ref="6/C16"),
+ "C17": dict(cat="proof", tech="Coq: verified validator (valid_b / msg_valid_b proved sound and complete w.r.t. the inductive strict-validity relation, valid_d definite verdicts) run by vm_compute on the vectors the testdata plugin emits (translation validation), coverage lemma, converter acceptance",
+             text="valid_b_sound / valid_b_complete (under mm_wf, discharged on the instance) / msg_valid_d_correct for EVERY JSON value; then the verified checker is evaluated in Coq on the emitted vectors (quick: stratified sample ~2,500 + all candidates flagged by an independent Python reference over all 73,988; thorough: all vectors, one kernel-checked lemma per shard); file-name format; every message class has a True vector; True vectors accepted by the real converter.",
+             note="Trusted: Coq kernel+VM; x_mm; x_vectors JSON->Coq printer and file-name parser; the pinned reading of strict validity and envelopes (MM.valid, Strict.msg_valid; DESIGN C17); class naming rule cross-checked against a Python reference; r_vectors mirrors tests/python/test_generated_data.py. Axioms: none.",
+             ref="6/C17"),
+ "C19": dict(cat="proof", tech="Coq: invariant proof over all thread counts and schedules of the once-initialiser translated from _hooks.py (x_once), history-independence lemma; forced-schedule correspondence on the real code (monkey-patched yield points), history stream",
+             text="once_safe / resolve_exactly_once / once_done for every number of classes, threads and every schedule, for any program accepted by lock_ok (mutual exclusion + re-check), instantiated on the program translated from the current _hooks.py; history_independent under reg_pure (register_hooks writes only its argument and the flag). When lock_ok fails the refutation witness (C19_refuted, vm_compute) is replayed on the real code.",
+             note="Trusted: Coq kernel+VM; x_once.py; the LSP.Once semantics of dict iteration / first resolve_types growing the dict / lock + finally (validated by forcing 24 (quick) / 294 (thorough) schedules on the real code, not verified); cattrs/attrs calls in register_hooks assumed not to write module state (validated by the history stream); real preemption (GIL switching) not modelled. Axioms: none.",
+             ref="6/C19"),
 }
 ALL = ["C%02d" % i for i in range(1, 21)]
 def main():
